@@ -135,6 +135,8 @@ pub fn check_reqs(rc: &ReqCase, cc: &mut CaseCtx) -> CheckResult {
     cc.class_if(p.cfg.reqs.route == 0, "route-slice");
     cc.class_if(p.cfg.reqs.route == 1, "route-vec-new");
     cc.class_if(p.cfg.reqs.route == 2, "route-vec-add");
+    cc.class_if(p.cfg.reqs.route == 3, "route-vec-new-then-remove-surplus");
+    cc.class_if(p.cfg.reqs.route == 4, "route-vec-add-then-remove-surplus");
     cc.class_if(p.cfg.reqs.always.iter().chain(&p.cfg.reqs.if_in_request).chain(&p.cfg.reqs.prefixes).any(|n| n.bytes().any(|c| c.is_ascii_uppercase())), "mixed-case-declaration");
     if cc.nontrivial.is_some() {
         cc.sample(json!({"requirements": p.cfg.reqs, "request_headers": case.req.headers.iter().map(|(n, _)| n.clone()).collect::<Vec<_>>(),
